@@ -6,6 +6,7 @@ import numpy as np
 import pandas as pd
 from hypothesis import strategies as st
 
+import config_inject
 import datagen
 from core import Rejected, guarded, require, scratch_dir
 
@@ -229,6 +230,24 @@ def check(case):
                         f"from_counts: with every decoy listed twice q/pi0 changes by a factor {float(((q2[m] / p2) / (vals[m] / p1)).max()):.3g} "
                         f"(targets {int(targets.sum())}, decoys {int((~targets).sum())}): the estimate does not account for the lengths of the two lists")
                 counters["decoy_duplication_checked"] = int(m.sum())
+    if algo == "from_peps":
+        # the documented optional argument: PEPs supplied by the caller (one per PSM, in input order)
+        from mokapot import qvalues as mq
+
+        given = config_inject.pep_stub(scores)
+        qa = np.asarray(guarded(mq.qvalues_from_peps, scores.copy(), targets.copy(), peps=given.copy(), sig="from_peps(peps=)"), dtype=float)
+        require(qa.shape == (n,) and bool(np.all(np.isfinite(qa))) and bool(qa.min() >= 0), "range", "from_peps(peps=): shape / range")
+        dq = np.diff(qa[order])
+        require(bool(np.all(dq >= -1e-12)), "not-monotone", f"from_peps(peps=): q-value decreases as the score worsens ({dq.min():.3g})")
+        if not has_ties:
+            for name, perm in (("random", p), ("descending", order)):
+                qb = np.asarray(guarded(mq.qvalues_from_peps, scores[perm].copy(), targets[perm].copy(), peps=given[perm].copy(),
+                                        sig="from_peps(peps=)"), dtype=float)
+                bad = np.abs(qb - qa[perm]) > 1e-12
+                require(not bad.any(), "misaligned",
+                        f"from_peps with caller-supplied PEPs: f(s[pi], t[pi], peps[pi]) != f(s, t, peps)[pi] for the {name} permutation at "
+                        f"{int(bad.sum())} of {n} positions (max diff {float(np.max(np.abs(qb - qa[perm]))):.3g})")
+        counters["explicit_peps_checked"] = n
     if algo == "qvality":
         ref_s, ref_p, _ = _triqler(scores, targets)
         require(len(ref_p) == n, "harness-triqler", "triqler returned another length")
